@@ -525,7 +525,17 @@ func c20SigClose(r *fw.Run, p *fw.Program) {
 
 		// channels the functions that handle the signal channel send to (the forward channels)
 		var fwd []ssa.Value
+		var scan []*ssa.Function
+		inScan := map[*ssa.Function]bool{}
 		for _, f := range l.order {
+			for _, x := range fw.WithClosures(f) {
+				if !inScan[x] {
+					inScan[x] = true
+					scan = append(scan, x)
+				}
+			}
+		}
+		for _, f := range scan {
 			fw.EachInstr(f, func(ins ssa.Instruction) {
 				var chans []ssa.Value
 				switch x := ins.(type) {
